@@ -20,7 +20,8 @@
    (why 0 = wild jump, 1 = fault / fell off the end), after which the run stops;
    "-8 i" if the init sequence of context i faults. *)
 From Coq Require Import List ZArith Lia Bool.
-From LF Require Import Conc CtxIsa gen.CtxGen.
+From LF Require Import Conc CtxIsa.
+From LF Require Import gen.CtxGen.
 Import ListNotations.
 Open Scope Z_scope.
 
